@@ -187,7 +187,7 @@ func headerBody(r0 int) nd.Body {
 		cfg, cb int
 		unaddr  bool
 	}
-	hcs := []hc{{cfgFull, 0, false}, {cfgFull, 1, false}, {cfgNil, 0, false}, {cfgEmpty, 0, false}, {cfgNil, 0, true}, {cfgFull, 0, true}}
+	hcs := []hc{{cfgFull, 0, false}, {cfgFull, 1, false}, {cfgNil, 0, false}, {cfgEmpty, 0, false}, {cfgNil, 0, true}, {cfgFull, 0, true}, {cfgFull, 2, false}}
 	return func(c *nd.Ctx) nd.Result {
 		if !rank(c, r0) {
 			return nd.Result{Skip: true}
@@ -252,7 +252,7 @@ func seqBody(k, r0 int, only string, app int) nd.Body {
 		}
 		rc := runCfg{cfg: cfgFull}
 		rc.ns = nss[c.Choose(2, "ns")]
-		rc.cb = c.Choose(2, "callbacks")
+		rc.cb = c.Choose(3, "callbacks") // 0 present, 1 present and failing, 2 optional callbacks not configured at all
 		if p.app != 0 && c.Choose(2, "application-state") == 0 {
 			rc.app = p.app | app
 		}
